@@ -33,17 +33,46 @@ load is atomic.
 -/
 namespace Goyang.Model
 
+/-- Why `Parse` returned an error. -/
+inductive Reject where
+  | build                              -- generic parser or AST builder
+  | add (e : Registry.AddErr)          -- `ms.add`: duplicate
+  | notModule (kw : String)            -- `ms.add`: "not a module or submodule" (a top-level statement
+                                       -- with another keyword that the builder knows, e.g. a container)
+
 namespace Session
 
-/-- `Modules.Parse` after the build phase: add every top-level statement of the text; the first
-rejected statement rejects the whole text. -/
-def tryLoad (reg : Registry) (f : SrcFile) : Except Registry.AddErr Registry :=
-  f.stmts.foldlM (fun r s => r.add s) reg
+/-- `ms.add(n)` for any top-level node the builder returned (the kind switch of `add`). -/
+def addTop (r : Registry) (s : Stmt) : Except Reject Registry :=
+  if s.kw == "module" || s.kw == "submodule" then
+    match r.add s with
+    | .ok r' => .ok r'
+    | .error e => .error (.add e)
+  else .error (.notModule s.kw)
 
-/-- `Modules.Parse` of a text that was built is `Goyang.Model.loadFile` (Pipeline.lean, what the
-resolver driver `drv_res` uses): atomic, a rejected text leaves the registry as it was. -/
-theorem loadFile_eq (reg : Registry) (f : SrcFile) :
-    loadFile reg f = match tryLoad reg f with | .ok r => r | .error _ => reg := rfl
+/-- `Modules.Parse` after the build phase: add every top-level statement of the text; the first
+rejected statement rejects the whole text (Go restores the maps: `restoreNames`). -/
+def tryLoad (reg : Registry) (f : SrcFile) : Except Reject Registry :=
+  f.stmts.foldlM addTop reg
+
+theorem foldlM_addTop_ok (stmts : List Stmt) (reg r : Registry) (h : stmts.foldlM addTop reg = .ok r) :
+    stmts.foldlM (fun r s => r.add s) reg = .ok r := by
+  induction stmts generalizing reg with
+  | nil => exact h
+  | cons s rest ih =>
+    simp only [List.foldlM_cons, bind, Except.bind] at h ⊢
+    unfold addTop at h
+    split at h
+    · cases hs : reg.add s with
+      | ok r' => simp only [hs] at h ⊢; exact ih r' h
+      | error e => simp only [hs] at h; cases h
+    · cases h
+
+/-- An accepted text is loaded exactly as `Goyang.Model.loadFile` (Pipeline.lean, what the resolver
+driver `drv_res` uses) loads it. -/
+theorem loadFile_of_ok (reg r : Registry) (f : SrcFile) (h : tryLoad reg f = .ok r) : loadFile reg f = r := by
+  unfold loadFile
+  rw [foldlM_addTop_ok f.stmts reg r h]
 
 end Session
 
@@ -59,11 +88,6 @@ inductive Op where
 def Op.isRead : Op → Bool
   | .read _ _ => true
   | _ => false
-
-/-- Why `Parse` returned an error. -/
-inductive Reject where
-  | build                              -- parser or AST builder
-  | add (e : Registry.AddErr)          -- `ms.add` (duplicate)
 
 /-- What the caller gets back. -/
 inductive Out where
@@ -97,7 +121,7 @@ def step (plug : Registry → Plug) (s : Session) : Op → Session × Out
     if !buildOk then (s, .rejected .build) else
     match tryLoad s.reg f with
     | .ok r => ({ s with reg := r }, .accepted)
-    | .error e => (s, .rejected (.add e))
+    | .error w => (s, .rejected w)
   | .process =>
     let o := processAll s.reg s.opts (plug s.reg)
     ({ s with cache := some o }, .processed o)
